@@ -98,6 +98,26 @@ paragraphs, consumed by list(), a for loop, or next().  Judgement per paragraph 
 dump returns, width rule, dump re-parses to the model), plus: a paragraph with NO field although fields were handed
 over is a finding of its own; iter_paragraphs yields exactly the paragraphs written; the dumped text goes once more
 through the SAME spelling and must give the model again; a mapping argument holds afterwards what it held before.
+
+Equality protocol of the exposed records: the harness reads records sub-field by sub-field, callers compare them with
+==.  After every judged parse and after every judged dump -> re-parse, for one present field (rotating): the field
+value == / is == to the same records as plain dicts in REVERSED or shuffled key order; after the parse of a generated
+text and after the re-parse of what a built object dumped additionally, for one record: rec == d, d == rec, rec != d,
+d != rec for d in column / reversed / shuffled key order, a dict differing in ONE sub-field value (first column, size,
+middle, last column) compares unequal both ways and != says so, d in records / records.index(d) (first equal record) /
+a differing dict is not in / a list differing in one sub-field of one record is unequal, the record against a
+Deb822Dict made from the reversed pairs, and - counted only - against a dict whose NAMES are in another letter case.
+Records of two parses compare equal: parsed text vs. the parse of its dump (every single-dump case), the same text
+parsed twice and the dumped text parsed twice (the single-record class and a share of the other single-dump cases).
+
+Single-record fields and stability (case['wl'] = ['one', field, shape]): every structured field of every
+configuration with exactly ONE record in the four shapes it can come about - the record on the field line of parsed
+text ('text-single'), on a continuation line ('text-multi'), a built object given a LIST holding the record
+('build-list') or the BARE record ('build-bare'; case['bare'] lists such fields, also drawn for 30 % of the one-record
+fields of the enumerated / random built cases).  For these and for every other single-dump case with a one-record
+field (a quarter of the remaining ones) parse -> dump -> parse must be stable: the value shape (list / bare record) of
+every field after the re-parse equals the one after the first parse (parsed cases), and the re-parsed object dumps to
+exactly the text it was parsed from (parsed and built cases; all three text layouts, both build shapes).
 """
 import collections
 import collections.abc
@@ -108,6 +128,7 @@ import json
 import os
 import random
 import re
+import sys
 import tempfile
 import traceback
 import types
@@ -205,6 +226,32 @@ RULE = ('One case = one paragraph of one class (Dsc, Changes, BuildInfo, PdiffIn
         'paragraph; afterwards the dumped text (for iter_paragraphs the dumped paragraphs joined into one document, for mappings a '
         'mapping of the same type made from the dump) goes through the same source form and spelling once more.  A ctor case is '
         'non-trivial when one of its paragraphs satisfies the single-dump rule.  '
+        '(h) EQUALITY PROTOCOL OF THE EXPOSED RECORDS: on every judged parse and every judged dump -> re-parse (histories, build '
+        'routes, constructor spellings included) one present field (rotating with the length of the text) is compared as a whole: '
+        'value == dicts / dicts == value with the same records as plain dicts whose keys are in reversed or shuffled order (a list '
+        'of dicts for a list-valued field, one dict for a field exposed as a bare record).  On every parse of a generated text and on '
+        'the re-parse of every single-dump built case additionally one record of that field in detail: rec == d, d != rec (keys in '
+        'column order), d == rec, rec != d (reversed), rec == d, rec != d (shuffled); a dict that differs in exactly ONE sub-field '
+        'value (the column rotates: first column, size, middle, last) must be unequal in both directions and != must be true; for a '
+        'list-valued field d in records, records.index(d) == index of the first equal record, and either a differing dict is not in '
+        'the list or a list of dicts differing in one sub-field of one record is unequal (== false, != true); every fourth time '
+        'the record against a Deb822Dict built from the reversed pairs (both directions), every fourth time against a dict whose '
+        'sub-field NAMES are in swapped letter case (answer counted, only "!= is the negation of ==" judged).  Records of two '
+        'parses: in every single-dump parsed case one field value of the parsed text against the same field of the parse of its '
+        'dump; in the single-record class, in every built case dumped through dump(fd, text_mode=True) and in every second parsed '
+        'one such, the text (and the dumped text) is parsed a SECOND time, judged like the first, and one field value of the two '
+        'parses compared (== one way or the other, != false).  '
+        '(i) SINGLE-RECORD FIELDS IN BOTH VALUE SHAPES, STABILITY OF parse -> dump -> parse: every configuration x structured field '
+        '(all 14 of PdiffIndex, SHA1-Current / SHA256-Current included; the library distinguishes the one-record form for every '
+        'structured field of every class) x exactly one record x {text with the record on the field line, text with the record on '
+        'a continuation line, built object given a LIST holding the record, built object given the BARE record (para[f] = rec)}, '
+        'the other structured fields absent / a random subset with 1..4 records / a random subset with one record each in shapes '
+        'of their own; input form and dump route rotate.  In the enumerated and random built cases 30 % of the one-record fields '
+        'are handed over bare as well.  For every single-dump case that has a one-record field, and for a quarter of the others '
+        '(length of the dumped text divisible by 4), parse -> dump -> parse is judged for stability: (parsed cases, any of the '
+        'three layouts) every field is exposed by the parse of the dump in the same value shape - list or bare record - as by '
+        'the first parse; (parsed and built cases) the object parsed from the dump, given the same size_field_behavior, dumps '
+        'to exactly the text it was parsed from (which implies that a third parse equals the second).  '
         'A single-dump case is non-trivial when at least one structured field of the class is absent and at least one present '
         'field has >= 2 records; a history is non-trivial when it has >= 2 judged dumps and that condition held at one of them.')
 ASSUMPTIONS = [
@@ -323,6 +370,34 @@ ASSUMPTIONS = [
     'separated by one or two EMPTY lines (no whitespace-only lines, no comments), ending with / without newline or with one extra '
     'empty line; a PGP-armoured document is one paragraph.  Exactly the written paragraphs must be yielded, in order (at most two '
     'more are pulled, to see a surplus).  In the for / next modes each paragraph is judged and dumped before the next one is pulled',
+    'equality protocol: the statement says parsing "exposes each line as a record with the documented sub-field names"; a record is '
+    'read as a MAPPING from those names to the tokens, so - like every Python mapping, and like the Deb822Dict the unchanged tree '
+    'exposes - it equals a plain dict holding the same names and tokens whatever order that dict holds its keys in, is unequal to '
+    'one with a different token under one name, and != is the negation of ==.  Only records that compare_records() has just seen '
+    'to hold exactly the model\'s tokens under exactly the documented names are compared, and only against dicts with exactly '
+    'those names spelled as documented (no extra / missing keys, no non-mapping operands, values str like the parsed tokens; the '
+    'differing token is the model\'s token + "~", made different from every record\'s token in that column).  list ==, `in` and '
+    'index() on a list-valued field are CPython\'s and only call the record\'s == (with an identity shortcut that cannot make a '
+    'wrong answer right here: the dicts are the harness\'s own objects).  Established on the unchanged tree before judging: all of '
+    'it holds in every configuration, stage and key order; no disagreement was seen',
+    'equality protocol, names in another letter case: record[name] is case-insensitive on the unchanged tree, record == dict with '
+    'the names in another case is FALSE there (Deb822Dict.__eq__ compares the names as spelled).  The statement is silent, so the '
+    'answer is only counted (eq:other-case-names:equal / unequal, no floor); judged is only that != gives the opposite answer',
+    'equality protocol, two parses: two parses of the same text (and the parse of a text and the parse of its dump, both seen to '
+    'expose the model\'s records) expose EQUAL field values; if one parse exposes a bare record and the other a list of one (that '
+    'is the stability judgement\'s business) the comparison is made between [record] and the list.  Not compared: a built '
+    'object\'s own values (they are the caller\'s dicts, possibly with int sizes), and objects of histories (mutated since)',
+    'single-record fields: the library documents no rule for WHICH shape a one-record field has; established on the unchanged tree: '
+    'every class exposes a record on the field line as the bare record (Deb822Dict) and a record on a continuation line as a list '
+    'of one, dumps para[f] = rec on the field line and para[f] = [rec] on a continuation line, for every structured field (not only '
+    'SHA1-/SHA256-Current).  Judged is only STABILITY, which needs no such rule: what the first parse exposed (list / bare), the '
+    'parse of its dump exposes too, and the re-parsed object (same size_field_behavior set) dumps to the text it came from.  '
+    'Whether a BUILT list of one comes back as a list (it does on the unchanged tree) is counted (stable:built:*-reparsed-as-*, '
+    'no floor), not judged: "re-parses to the same records" says nothing about the container.  A bare record is assigned only as '
+    'a dict / Deb822Dict with exactly the documented names (the unchanged tree accepts it in every class); an assignment that '
+    'raises is reported (build-assignment-raises/<exception>/bare-record).  dump() of the re-parsed object is the plain dump() -> '
+    'str, compared with the first dump whatever route (str / binary fd decoded as UTF-8 / text fd) that took - established equal '
+    'on the unchanged tree for all routes, layouts, classes and token alphabets used here',
     'constructor spellings: "the dump re-parses to the records" is judged twice - with the classic cls(dumped str) like everywhere '
     'else, and with the dumped text handed over through the same source form and call spelling as the original (a mapping of the '
     'same type is made from the dump with the harness\'s splitter or, for the deb822-* types, by the generic Deb822 parser)',
@@ -354,6 +429,9 @@ INV_REPS = {'quick': 1, 'thorough': 6}          # per (config, field, sub-field 
 INV_PAR = {'quick': 1600, 'thorough': 50000}    # paragraphs with many such tokens
 # position of the strictly longest size among 2..6 records
 LPOS_REPS = {'quick': 2, 'thorough': 40}        # per (config, field, record count, position of the longest, mode)
+# built objects: share of the one-record fields of the enumerated / random single-dump cases whose value is the bare
+# record instead of a list holding it
+BARE_P = 0.3
 
 # ~50% of what the unchanged (repaired) tree measures: quick = minimum over VERIF_SEED 0..3, thorough = seed 0.
 # has-absent-field is counted per judged dump.  The hist:* / pdiff:* floors make a run that never drives the
@@ -1622,7 +1700,7 @@ def _gen_token(r, sub):
     if k < 0.22:
         s = ''.join(r.choice(HOSTILE_ATOMS) for _ in range(r.randint(1, 4)))
     elif sub.lower() in HEXLEN and k < 0.55:
-        s = ''.join(r.choice('0123456789abcdef') for _ in range(HEXLEN[sub.lower()]))
+        s = '%0*x' % (HEXLEN[sub.lower()], r.getrandbits(4 * HEXLEN[sub.lower()]))     # one draw, not one per digit
     elif sub == 'date' and k < 0.7:
         s = '2026-%02d-%02d-%04d.%02d' % (r.randint(1, 12), r.randint(1, 28), r.randint(0, 2359), r.randint(0, 59))
     elif sub in ('name', 'filename') and k < 0.7:
@@ -1751,7 +1829,7 @@ def pd_is_3col(f):
 
 
 def gen_case(r, clsname, behavior, subset, mode, big=False, tweak=None, force=None, inv_p=None, inject=None,
-             lpos=None, input_form=None, dump_via=None):
+             lpos=None, input_form=None, dump_via=None, one=None, bare=None, bare_p=0.0):
     """tweak (PdiffIndex only): 'pd-current-list' forces SHA*-Current present as >= 2 records with sizes of
     different lengths; 'pd-single3' forces text mode with 1..3 History/Patches/Download fields whose only
     record sits on the field line.
@@ -1761,12 +1839,20 @@ def gen_case(r, clsname, behavior, subset, mode, big=False, tweak=None, force=No
     inject: [field, sub-field index, character, position, which record ('first' / 'last' / 'mid' / 'any')] - the
     field is present and that token of that record carries the invisible character at that position.
     lpos: {field: [nrecords, where]} - the field is present with exactly that many (>= 2) records and the
-    strictly longest size token sits in the first / the last / a middle record."""
+    strictly longest size token sits in the first / the last / a middle record.
+    one: fields that are present with exactly ONE record (any mode).
+    bare / bare_p (build mode): fields with exactly one record whose value is handed over as the BARE record
+    (para[f] = rec - the value shape the library itself exposes for a record on the field line) instead of a
+    list holding that record; `bare` names them, `bare_p` is the share of the other one-record fields."""
     table = mv.DOC[clsname]
     present = list(subset)
     force_single, mixed = set(), set()
     force = force or {}
     lpos = lpos or {}
+    one = list(one or ())
+    for f in one:
+        if f not in present:
+            present.append(f)
     if force:
         mode = 'text'
         for f in sorted(force):
@@ -1796,7 +1882,7 @@ def gen_case(r, clsname, behavior, subset, mode, big=False, tweak=None, force=No
             counts[f] = r.randint(5, 12)
         if f in mixed:
             counts[f] = r.choice([2, 2, 3, 4])
-        if f in force_single:
+        if f in force_single or f in one:
             counts[f] = 1
         if f in lpos:
             counts[f] = lpos[f][0]
@@ -1804,7 +1890,7 @@ def gen_case(r, clsname, behavior, subset, mode, big=False, tweak=None, force=No
             counts[f] = force[f][1]
     if present and r.random() < 0.85 and max(counts.values()) < 2:
         f = r.choice(present)
-        if f not in force_single and f not in force:
+        if f not in force_single and f not in force and f not in one:
             counts[f] = r.randint(2, 4)
     items = []
     expect = {}
@@ -1860,6 +1946,10 @@ def gen_case(r, clsname, behavior, subset, mode, big=False, tweak=None, force=No
                          for it in items]
         case['rectype'] = r.choice(['dict', 'dict', 'deb822dict'])
         case['int_sizes'] = r.random() < 0.25
+        as_bare = sorted(f for f in present if counts[f] == 1 and
+                         (f in (bare or ()) or (f not in one and bare_p and r.random() < bare_p)))
+        if as_bare:
+            case['bare'] = as_bare
     case['dump_via'] = r.choice(['str', 'str', 'str', 'fd_bytes', 'fd_text'])
     if dump_via:
         case['dump_via'] = dump_via
@@ -1886,7 +1976,7 @@ def initial_state(case):
         for it in case['items']:
             if it[1] == 'records':
                 recs[it[2]] = copy.deepcopy(it[3])
-                form[it[2]] = 'list'
+                form[it[2]] = 'single' if it[2] in case.get('bare', ()) else 'list'
     # 'mixed': fields whose value still is the one parsed from the mixed text layout (not re-assigned since)
     return {'recs': recs, 'form': form, 'behavior': case['behavior'], 'mixed': mixed}
 
@@ -2171,6 +2261,50 @@ def lpos_enumerated():
                     for mode in ('text', 'build'):
                         out.append((clsname, behavior, f, n, where, mode))
     return out
+
+
+# SINGLE-RECORD FIELDS in both value shapes.  The library distinguishes a one-record form for EVERY structured field of
+# every class: a record on the field line is exposed as the bare record (a mapping), one record on a continuation line
+# as a list holding it; para[f] = rec is dumped on the field line, para[f] = [rec] on a continuation line.
+ONE_SHAPES = ('text-single', 'text-multi', 'build-list', 'build-bare')
+ONE_REPS = {'quick': 3, 'thorough': 60}        # per (config, structured field, shape)
+
+
+def one_enumerated():
+    """(clsname, behavior, field, shape) for every structured field of every configuration x the four ways a field
+    with exactly one record comes about."""
+    out = []
+    for clsname, behavior in mv.CONFIGS:
+        for f in sorted(mv.DOC[clsname]):
+            for shape in ONE_SHAPES:
+                out.append((clsname, behavior, f, shape))
+    return out
+
+
+def gen_one_case(r, item, rep, idx):
+    """The field has exactly one record in the given shape; the other structured fields are absent (every third
+    repetition), or a random subset of them is present with 1..4 records, or with one record each in a shape of
+    its own.  Input form and dump route rotate with the running index."""
+    clsname, behavior, f, shape = item
+    others = [x for x in sorted(mv.DOC[clsname]) if x != f]
+    p = (0.0, 0.5, 0.85)[rep % 3]
+    sub = [x for x in others if r.random() < p]
+    all_one = bool(sub) and r.random() < 0.4
+    forms = input_forms_of(clsname)
+    via = DUMP_VIAS[(idx + rep) % 3]
+    if shape.startswith('text-'):
+        force = {f: [shape[5:], 1]}
+        if all_one:
+            for x in sub:
+                force[x] = [r.choice(['single', 'multi']), 1]
+        case = gen_case(r, clsname, behavior, sub, 'text', force=force, input_form=forms[(idx + rep) % len(forms)],
+                        dump_via=via)
+    else:
+        bare = ([f] if shape == 'build-bare' else []) + [x for x in sub if all_one and r.random() < 0.5]
+        case = gen_case(r, clsname, behavior, sub, 'build', one=[f] + (sub if all_one else []),
+                        bare=bare, bare_p=0.5, dump_via=via)
+    case['wl'] = ['one', f, shape]
+    return case
 
 
 def gen_mixed_paragraph(r, clsname, behavior):
@@ -2874,6 +3008,9 @@ def _enum_floors():
             want['ctor-enum:%s:%s:%s' % (api, src, call)] += CTOR_MAP_REPS[tier]
             want['ctor:map:%s:driven' % src[4:]] += CTOR_MAP_REPS[tier]
             want['ctor:map-call:%s:%s' % (src[4:], call)] += CTOR_MAP_REPS[tier]
+        # single-record fields: every (configuration, structured field, shape)
+        for (clsname, behavior, f, shape) in one_enumerated():
+            want['one:%s:%s:%s' % (tag_of(clsname, behavior), f, shape)] += ONE_REPS[tier]
         for k, v in want.items():
             FLOORS[tier]['counters'][k] = v // 2
 
@@ -2897,20 +3034,22 @@ def setup(ctx):
         'constructor spellings: every configuration x text source form (%s) x call spelling (constructor: %s; iter_paragraphs: '
         'those plus %s), %d case(s) each; every configuration x mapping type (%s) x call spelling (%s), %d case(s) each'
         % (' '.join(CTOR_SRC), ' '.join(CTOR_CALLS), ' '.join(ITER_CALLS[len(CTOR_CALLS):]), CTOR_REPS[ctx.tier],
-           ' '.join(CTOR_MAPS), ' '.join(MAP_CALLS), CTOR_MAP_REPS[ctx.tier])]
+           ' '.join(CTOR_MAPS), ' '.join(MAP_CALLS), CTOR_MAP_REPS[ctx.tier]),
+        'single-record fields: every configuration x structured field x exactly one record x %s, %d case(s) each, judged for '
+        'parse -> dump -> parse stability and the equality protocol' % (' / '.join(ONE_SHAPES), ONE_REPS[ctx.tier])]
 
 
 def cases(ctx):
     for i, (clsname, behavior, sub, mode, rep) in enumerate(enumerated(ctx.seed, ctx.tier)):
         if ctx.mine(i):
-            yield gen_case(ctx.rng('enum', i), clsname, behavior, sub, mode)
+            yield gen_case(ctx.rng('enum', i), clsname, behavior, sub, mode, bare_p=BARE_P)
     r = ctx.rng('random')
     for i in range(ctx.size(RANDOM['quick'], RANDOM['thorough'])):
         clsname, behavior = r.choice(mv.CONFIGS)
         fields = sorted(mv.DOC[clsname])
         p = r.choice([0.15, 0.5, 0.5, 0.85])
         sub = [f for f in fields if r.random() < p]
-        yield gen_case(r, clsname, behavior, sub, r.choice(['text', 'build']), big=True)
+        yield gen_case(r, clsname, behavior, sub, r.choice(['text', 'build']), big=True, bare_p=BARE_P)
     # PdiffIndex: SHA*-Current as a list of records with sizes of different lengths; parsed Index whose
     # History / Patches / Download fields carry their only record on the field line (single dump)
     r = ctx.rng('pd-extra')
@@ -2972,6 +3111,15 @@ def cases(ctx):
                 case = gen_case(rr, clsname, behavior, sub, mode, lpos={f: [n, where]})
                 case['wl'] = ['lpos', f, n, where]
                 yield case
+            i += 1
+    # single-record fields: every structured field of every configuration x exactly one record x the four shapes
+    # (record on the field line / on a continuation line of parsed text; a list holding one record / the bare
+    # record assigned to a built object)
+    i = 0
+    for item in one_enumerated():
+        for rep in range(ONE_REPS[ctx.tier]):
+            if ctx.mine(i):
+                yield gen_one_case(ctx.rng('one', i), item, rep, i)
             i += 1
     # histories: one object, several dumps
     r = ctx.rng('history')
@@ -3062,6 +3210,203 @@ def compare_records(obj, table, expect):
             if len(g) != len(names):
                 return f, 'subfield-names', 'field %r record %d has sub-fields %r, documented %r' % (f, i, list(g.keys()), names)
     return None
+
+
+# ---------------------------------------------------------------------------
+# EQUALITY PROTOCOL of the records a parse exposes.  compare_records() reads sub-field by sub-field; callers
+# compare with ==.  A record that was seen to hold exactly the model's tokens under exactly the documented names
+# (compare_records passed) must compare EQUAL to a plain dict holding the same sub-fields - in whatever order the
+# dict holds its keys - and UNEQUAL to one that differs in one sub-field value; != is the negation; a field value
+# that is a list of records equals the list of such dicts (list equality, membership and index() are CPython's
+# and only call the record's ==).  Nothing is demanded for dicts whose NAMES differ in case (the unchanged tree
+# compares names as spelled: unequal) beyond != being the negation of ==.
+
+EQ_ORDERS = ('column', 'reversed', 'shuffled')
+
+
+def eq_dicts(names, toks, salt):
+    """The record as three plain dicts: keys in column order, reversed, and in another order (a rotation, with
+    the first two keys swapped when there are >= 3; never the column order)."""
+    pairs = list(zip(names, toks))
+    n = len(pairs)
+    k = 1 + salt % (n - 1) if n > 1 else 0
+    sh = pairs[k:] + pairs[:k]
+    if n > 2 and salt % 2:
+        sh[0], sh[1] = sh[1], sh[0]
+    return dict(pairs), dict(pairs[::-1]), dict(sh)
+
+
+def _eq_fail(ctx, what, stage, msg):
+    ctx.violation('record-equality/%s/%s' % (what, stage), msg)
+    return False
+
+
+def check_equality(ctx, deb822, clsname, obj, table, expect, stage, salt, full=True):
+    """`obj` already passed compare_records(obj, table, expect).  One present field (rotating with `salt`, which
+    is derived from the case so that a replay makes the same choices): the whole field value against plain dicts in
+    another key order and, when `full`, the detailed protocol on one of its records.  False after a violation."""
+    fields = sorted(expect)
+    if not fields:
+        return True
+    ctx.mon('M.eq')
+    ctx.count('eq:stage:%s' % stage)
+    try:
+        return _check_equality(ctx, deb822, clsname, obj, table, expect, stage, salt, full, fields)
+    except Exception as e:
+        ctx.violation('record-equality-raises/%s/%s' % (type(e).__name__, stage),
+                      '%s: comparing a record / field value exposed by the library with == / != / in / index() raised %r\n%s'
+                      % (clsname, e, traceback.format_exc(limit=6)))
+        return False
+
+
+def _check_equality(ctx, deb822, clsname, obj, table, expect, stage, salt, full, fields):
+    pick = fields[salt % len(fields)]
+    ncmp = 0
+    for fi, f in enumerate(fields):
+        if f != pick:
+            continue
+        names, want, value = table[f], expect[f], obj[f]
+        bare = hasattr(value, 'keys')
+        n = len(want)
+        s = salt // len(fields) + fi           # the knobs below rotate independently of which field was picked
+        variants = [eq_dicts(names, w, s + i) for i, w in enumerate(want)]
+        # (a) the whole field value against plain dicts in another key order
+        order = 1 + s % 2
+        other = [v[order] for v in variants]
+        if bare:
+            other = other[0]
+        left = (s // 2) % 2
+        res = (value == other) if left else (other == value)
+        ncmp += n
+        ctx.count('eq:field-value:%s:%s-key-order:%s' % ('bare-record' if bare else 'list', EQ_ORDERS[order],
+                                                       'value==dicts' if left else 'dicts==value'))
+        if not res:
+            return _eq_fail(ctx, 'field-value-unequal-to-the-same-records-as-dicts/%s-key-order' % EQ_ORDERS[order], stage,
+                            '%s field %r: %s is %r; exposed value %r, dicts %r (same sub-fields and tokens, keys in %s order)'
+                            % (clsname, f, 'value == dicts' if left else 'dicts == value', res, value, other, EQ_ORDERS[order]))
+        if not full:
+            continue
+        # (b) one record in detail
+        got = [value] if bare else value
+        k = s % n
+        rec = got[k]
+        ctx.count('eq:record:columns:%d' % len(names))
+        for oi, d in enumerate(variants[k]):
+            if oi == 0:
+                e, ne, how = rec == d, d != rec, ('rec == d', 'd != rec')
+            elif oi == 1:
+                e, ne, how = d == rec, rec != d, ('d == rec', 'rec != d')
+            else:
+                e, ne, how = rec == d, rec != d, ('rec == d', 'rec != d')
+            ncmp += 2
+            ctx.count('eq:record:%s-key-order' % EQ_ORDERS[oi])
+            if not e:
+                return _eq_fail(ctx, 'record-unequal-to-dict-with-the-same-sub-fields/%s-key-order' % EQ_ORDERS[oi], stage,
+                                '%s field %r record %d: %s is %r; rec = %r, d = %r (same names, same tokens, keys in %s '
+                                'order)' % (clsname, f, k, how[0], e, rec, d, EQ_ORDERS[oi]))
+            if ne:
+                return _eq_fail(ctx, 'ne-is-not-the-negation-of-eq', stage,
+                                '%s field %r record %d: %s is %r although the two compare equal; rec = %r, d = %r'
+                                % (clsname, f, k, how[1], ne, rec, d))
+        # one sub-field value different -> unequal
+        c = (s // 3) % len(names)
+        alt = want[k][c] + '~'
+        while any(w[c] == alt for w in want):
+            alt += '~'
+        d1 = dict(variants[k][s % 3])
+        d1[names[c]] = alt
+        e1, e2, ne = rec == d1, d1 == rec, rec != d1
+        ncmp += 3
+        ctx.count('eq:differs-in:%s' % ('size' if names[c] == 'size' else 'first-column' if c == 0 else
+                                        'last-column' if c == len(names) - 1 else 'middle-column'))
+        if e1 or e2:
+            return _eq_fail(ctx, 'record-differing-in-one-sub-field-compares-equal', stage,
+                            '%s field %r record %d: rec == d is %r, d == rec is %r although sub-field %r differs; rec = %r, '
+                            'd = %r' % (clsname, f, k, e1, e2, names[c], rec, d1))
+        if not ne:
+            return _eq_fail(ctx, 'ne-is-not-the-negation-of-eq', stage,
+                            '%s field %r record %d: rec != d is %r although sub-field %r differs; rec = %r, d = %r'
+                            % (clsname, f, k, ne, names[c], rec, d1))
+        # the field value as a list: membership, index, a list differing in one sub-field of one record
+        if not bare:
+            first = [tuple(w) for w in want].index(tuple(want[k]))
+            d_in, d_rev = variants[k][(s + 1) % 3], variants[k][(s + 2) % 3]
+            isin = d_in in value
+            idx = value.index(d_rev) if isin else None
+            ncmp += 2 * (first + 1)
+            ctx.count('eq:list:in+index')
+            if not isin or idx != first:
+                return _eq_fail(ctx, 'membership-or-index-of-an-equal-dict', stage,
+                                '%s field %r: d in records is %r, records.index(d) is %r, expected True and %d; d = %r / %r, '
+                                'records = %r' % (clsname, f, isin, idx, first, d_in, d_rev, value))
+            if s % 2:
+                wrong = d1 in value
+                ctx.count('eq:list:differing-dict-not-in')
+            else:
+                lst = [v[0] for v in variants]
+                lst[k] = d1
+                wrong = (value == lst) or not (value != lst)
+                ctx.count('eq:list:differs-in-one-sub-field-of-one-record')
+            ncmp += n
+            if wrong:
+                return _eq_fail(ctx, 'list-differing-in-one-sub-field-of-one-record-compares-equal', stage,
+                                '%s field %r: a dict differing from record %d in sub-field %r is found in / makes a list equal '
+                                'to the exposed records; d = %r, records = %r' % (clsname, f, k, names[c], d1, value))
+        # another mapping type holding the same sub-fields in reversed order
+        if s % 4 == 0:
+            dd = deb822.Deb822Dict(list(variants[k][1].items()))
+            e1, e2 = rec == dd, dd == rec
+            ncmp += 2
+            ctx.count('eq:record:against-Deb822Dict-from-reversed-pairs')
+            if not e1 or not e2:
+                return _eq_fail(ctx, 'record-unequal-to-Deb822Dict-with-the-same-sub-fields/reversed-key-order', stage,
+                                '%s field %r record %d: rec == D is %r, D == rec is %r; rec = %r, D = Deb822Dict(%r)'
+                                % (clsname, f, k, e1, e2, rec, list(variants[k][1].items())))
+        elif s % 4 == 1:
+            # names in another letter case: the library's answer is counted, only the negation is judged
+            dup = dict((name.swapcase(), tok) for name, tok in variants[k][0].items())
+            e, ne = rec == dup, rec != dup
+            ncmp += 2
+            ctx.count('eq:other-case-names:probed')
+            ctx.count('eq:other-case-names:%s' % ('equal' if e else 'unequal'))        # the library's answer: no floor
+            if bool(ne) == bool(e):
+                return _eq_fail(ctx, 'ne-is-not-the-negation-of-eq', stage,
+                                '%s field %r record %d: rec == d is %r and rec != d is %r; rec = %r, d = %r'
+                                % (clsname, f, k, e, ne, rec, dup))
+    ctx.mon('M.eq.cmp', ncmp)
+    if full:
+        ctx.mon('M.eq.full')
+    return True
+
+
+def check_same_records(ctx, clsname, a, b, expect, which, stage, salt=0):
+    """Records of two parses (both already seen to hold the model's tokens) compare equal: a == b (or b == a) and
+    not a != b for the value of one field (rotating with `salt`)."""
+    ctx.mon('M.eq.two-parses')
+    ctx.count('eq:two-parses:%s' % which)
+    try:
+        fields = sorted(expect)
+        for f in fields[salt % max(1, len(fields)):][:1]:
+            va, vb = a[f], b[f]
+            if hasattr(va, 'keys') != hasattr(vb, 'keys'):
+                va, vb = as_records(va), as_records(vb)
+            e = (va == vb) if salt % 2 else (vb == va)
+            ne = va != vb
+            if not e or ne:
+                ctx.violation('record-equality/records-of-two-parses-compare-unequal/%s/%s' % (which, stage),
+                              '%s field %r: a == b / b == a is %r, a != b is %r; a = %r, b = %r (both expose the '
+                              'tokens %r)' % (clsname, f, e, ne, va, vb, expect[f]))
+                return False
+    except Exception as e:
+        ctx.violation('record-equality-raises/%s/%s' % (type(e).__name__, stage),
+                      '%s: comparing the records of two parses (%s) raised %r\n%s'
+                      % (clsname, which, e, traceback.format_exc(limit=6)))
+        return False
+    return True
+
+
+def shape_of(value):
+    return 'bare-record' if hasattr(value, 'keys') else 'list'
 
 
 def construct(deb822, cls, text, how):
@@ -3195,9 +3540,14 @@ def widths_of(clsname, behavior, state):
                 for f, recs in state['recs'].items() if state['form'][f] == 'list')
 
 
-def dump_and_judge(ctx, cls, clsname, obj, state, via, origin, suffix=''):
+def dump_and_judge(ctx, cls, clsname, obj, state, via, origin, suffix='', deep=None):
     """dump() must return text; size column per CURRENT behaviour and records; text re-parses to the
-    CURRENT records.  False after a violation."""
+    CURRENT records; the re-parsed records obey the equality protocol (check_equality; one field only unless
+    `deep`).  deep (single-dump cases): {'twice': bool} - additionally parse -> dump -> parse must be STABLE (value
+    shape of every field after the re-parse = the one after the first parse, when `obj` was parsed; the dump of the
+    re-parsed object = the first dump), the records of `obj` (when parsed) and of the re-parsed object compare
+    equal, and with 'twice' a second parse of the dumped text gives records equal to the first.
+    False after a violation."""
     table = mv.DOC[clsname]
     expect = state['recs']
     behavior = state['behavior']
@@ -3269,6 +3619,87 @@ def dump_and_judge(ctx, cls, clsname, obj, state, via, origin, suffix=''):
         return False
     if invf:
         ctx.mon('M.inv.dump')
+    deb822 = sys.modules[cls.__module__]
+    stage = 'reparsed-dump-of-%s-object' % origin
+    # the detailed protocol on the records of a parsed text runs right after that parse (run_case); here it runs on
+    # the re-parse of what a BUILT object dumped
+    if not check_equality(ctx, deb822, clsname, obj2, table, expect, stage, len(txt),
+                          full=deep is not None and origin == 'built'):
+        return False
+    if deep is None:
+        return True
+    if origin == 'parsed' and not check_same_records(ctx, clsname, obj, obj2, expect, 'text-and-its-dump', stage, len(txt)):
+        return False
+    if deep.get('twice'):
+        try:
+            obj2b = cls(txt)
+        except Exception as e:
+            ctx.violation('reparse-raises/%s/second-parse' % type(e).__name__,
+                          'parsing the dumped text %r a second time raised %r' % (txt, e))
+            return False
+        bad = compare_records(obj2b, table, expect)
+        if bad:
+            ctx.violation('roundtrip-%s-%s/second-parse-of-the-dump' % (origin, bad[1]),
+                          '%s(%s): a second parse of the dumped text: %s; dumped=%r' % (clsname, behavior, bad[2], txt))
+            return False
+        if not check_same_records(ctx, clsname, obj2, obj2b, expect, 'dumped-text-twice', stage, len(txt) + 1):
+            return False
+    # every case with a one-record field, every fourth of the others (decided by the dumped text: replayable)
+    if any(len(v) == 1 for v in expect.values()) or len(txt) % 4 == 0:
+        if not check_stability(ctx, clsname, obj, obj2, state, txt, origin):
+            return False
+        for f in expect:
+            if origin == 'parsed':
+                ctx.count('stable:text-layout:%s%s' % (deep['forms'][f], ':one-record' if len(expect[f]) == 1 else ''))
+            else:
+                ctx.count('stable:built-as:%s%s' % ('bare-record' if state['form'][f] == 'single' else 'list',
+                                                  ':one-record' if len(expect[f]) == 1 else ''))
+    return True
+
+
+def check_stability(ctx, clsname, obj, obj2, state, txt, origin):
+    """parse -> dump -> parse is stable: a field exposed as a list of one record / as a bare record by the first
+    parse is exposed in the same shape by the parse of its dump (judged when `obj` was parsed; for a built object
+    the shapes are counted), and the re-parsed object dumps to the text it was parsed from."""
+    expect, behavior = state['recs'], state['behavior']
+    ctx.mon('M.stable')
+    ones = 0
+    for f in sorted(expect):
+        s2 = shape_of(obj2[f])
+        n = len(expect[f])
+        if n == 1:
+            ones += 1
+        if origin == 'parsed':
+            s1 = shape_of(obj[f])
+            if n == 1:
+                ctx.mon('M.stable.one-record')
+                ctx.count('stable:parsed:%s:%s' % (tag_of(clsname, behavior), s1))
+            if s1 != s2:
+                ctx.violation('parse-dump-parse-unstable/value-shape/%s-becomes-%s/%s'
+                              % (s1, s2, 'one-record' if n == 1 else 'several-records'),
+                              '%s(%s) field %r (%d record(s)): the first parse exposes %r, the parse of its dump %r; dumped=%r'
+                              % (clsname, behavior, f, n, obj[f], obj2[f], txt))
+                return False
+        elif n == 1:
+            s1 = 'bare-record' if state['form'][f] == 'single' else 'list'
+            ctx.mon('M.stable.one-record')
+            ctx.count('stable:built:%s:%s' % (tag_of(clsname, behavior), s1))
+            ctx.count('stable:built:%s-reparsed-as-%s' % (s1, s2))           # the library's choice: counted only
+    try:
+        if behavior:
+            obj2.size_field_behavior = behavior
+        txt2 = obj2.dump()
+    except Exception as e:
+        ctx.violation('parse-dump-parse-unstable/dump-of-the-reparsed-object-raises/%s' % type(e).__name__,
+                      '%s(%s): dump() of the object parsed from the dumped text %r raised %r' % (clsname, behavior, txt, e))
+        return False
+    if txt2 != txt:
+        ctx.violation('parse-dump-parse-unstable/second-dump-differs%s' % ('/one-record-field-present' if ones else ''),
+                      '%s(%s) %s: dump() = %r, but the object parsed from that text dumps as %r; records %r, held as %r'
+                      % (clsname, behavior, origin, txt, txt2, expect, state['form']))
+        return False
+    if ones:
+        ctx.mon('M.stable.redump-with-one-record-field')
     return True
 
 
@@ -4521,6 +4952,21 @@ def run_case(ctx, case):
             ctx.mon('M.mixed', len(mixed))
         if scan:
             ctx.mon('M.inv', len(scan))
+        if not check_equality(ctx, deb822, clsname, obj, table, expect, 'parsed', len(case['text'])):
+            return
+        if twice_of(case):
+            # rec == other_rec for a second parse of the same text
+            try:
+                objb = cls(case['text'])
+            except Exception as e:
+                ctx.violation('parse-raises/%s/second-parse' % type(e).__name__, 'parsing %r raised %r' % (case['text'], e))
+                return
+            bad = compare_records(objb, table, expect)
+            if bad:
+                ctx.violation('parse-%s/second-parse' % bad[1], '%s(str input): %s; text=%r' % (clsname, bad[2], case['text']))
+                return
+            if not check_same_records(ctx, clsname, obj, objb, expect, 'same-text-twice', 'parsed', len(case['text'])):
+                return
     else:
         obj = cls()
         if case['behavior']:
@@ -4532,11 +4978,13 @@ def run_case(ctx, case):
             key, _, lower, recs = it
             built = [build_record(deb822, table[lower], rec, case.get('rectype'), case.get('int_sizes'))
                      for rec in recs]
+            as_bare = lower in case.get('bare', ())
             try:
-                obj[key] = built
+                obj[key] = built[0] if as_bare else built
             except Exception as e:
-                ctx.violation('build-assignment-raises/%s' % type(e).__name__,
-                              '%s()[%r] = <list of %d records> raised %r' % (clsname, key, len(built), e))
+                ctx.violation('build-assignment-raises/%s%s' % (type(e).__name__, '/bare-record' if as_bare else ''),
+                              '%s()[%r] = <%s> raised %r' % (clsname, key, 'one bare record' if as_bare else
+                                                             'list of %d records' % len(built), e))
                 return
         ctx.count('rectype:%s' % case.get('rectype'))
         scan = inv_scan(dict((it[2], it[3]) for it in case['items'] if it[1] == 'records'), table)
@@ -4562,7 +5010,24 @@ def run_case(ctx, case):
     ctx.count('kind:single-dump')
     if [f for f in table if f not in state['recs']] and any(len(v) >= 2 for v in state['recs'].values()):
         ctx.nontrivial()
-    dump_and_judge(ctx, cls, clsname, obj, state, case.get('dump_via', 'str'), origin)
+    if wl and wl[0] == 'one':
+        ctx.count('one:case')
+        ctx.count('one:%s:%s:%s' % (tag_of(clsname, case['behavior']), wl[1], wl[2]))
+    for f in case.get('bare', ()):
+        ctx.count('build:bare-record-value')
+        ctx.count('build:bare-record-value:%s' % tag_of(clsname, case['behavior']))
+    if dump_and_judge(ctx, cls, clsname, obj, state, case.get('dump_via', 'str'), origin,
+                      deep={'twice': twice_of(case), 'forms': case.get('forms')}) and wl and wl[0] == 'one':
+        ctx.mon('M.one')
+
+
+def twice_of(case):
+    """Single-dump cases that also parse their text (and their dump) a SECOND time and compare the records of the
+    two parses: the single-record class, every built case dumped through dump(fd, text_mode=True) and every second
+    parsed one (decided by the case itself, so that a replay does the same)."""
+    if (case.get('wl') or [None])[0] == 'one':
+        return True
+    return case.get('dump_via') == 'fd_text' and (case['mode'] != 'text' or len(case['text']) % 2 == 0)
 
 
 LEVEL_TEXT = ('Runtime monitoring: for Dsc, Changes, BuildInfo, PdiffIndex and Release (both size_field_behavior values) the live '
